@@ -52,6 +52,13 @@ class Verifier:
                 return self.interp.last_top_env.get(name, default)
             return self.interp.last_top_env[name]
         self.interp.ghost_frames = []
+
+        def _effect(name, k=0):
+            """positional arguments of the k-th recorded call whose name ends with `name`"""
+            hits = [e for e in self.interp.effects if e[0].endswith(name)]
+            return hits[k][1]
+        self.interp.spec_env['effect'] = _effect
+        self.interp.spec_env['effect_count'] = lambda name: len([e for e in self.interp.effects if e[0].endswith(name)])
         self.interp.spec_env['local'] = _local
         for n, l in self.lemmas.items():
             self.interp.spec_env[n] = (lambda l: (lambda *a: l.instance(self.interp, a)))(l)
